@@ -540,6 +540,18 @@ def pool_check(res, pid, n, focus=None, cfg=None, length=(5, 45), extra_cases=()
                 nalarm += 1
                 if nalarm <= 50:
                     res.alarms.append(dict(signature=sig, what=what, replay=dict(case=c, kind='pool-history')))
+    # shrink the first alarm of every signature that is not a recorded finding
+    known = {k['signature'] for k in core.load_known() if k.get('status') == 'known'}
+    done = set()
+    for a in res.alarms:
+        sig = a['signature']
+        if sig in known or sig in done or a['replay'].get('kind') != 'pool-history':
+            continue
+        done.add(sig)
+        small = shrink_history(pid, a['replay']['case'], sig)
+        if small is not None:
+            a['replay'] = dict(case=small, kind='pool-history', shrunk_from=len(a['replay']['case']['events']))
+            a['what'] += '   [minimised history: %s]' % json.dumps(small['events'])
     for i, code in codes:
         k = code - 1000
         c = cases[i]
@@ -555,6 +567,44 @@ def pool_check(res, pid, n, focus=None, cfg=None, length=(5, 45), extra_cases=()
                      'model inside Coq; property monitors on the implementation trace; non-trivial = at least 4 distinct event kinds',
                 event_histogram=hist, events_total=sum(hist.values()), model_mismatches=len(codes))
     return cases, outs
+
+
+def shrink_history(pid, case, sig, rounds=40):
+    """greedy one-event-removal minimisation of a history that triggers alarm `sig` on the
+    implementation (every round: all one-event-shorter candidates in ONE driver run)"""
+    def fires(c, obs):
+        return any(s_ == sig for mon in MONITORS.get(pid, []) for s_, _ in mon(c, obs))
+    cur = dict(cfg=case['cfg'], events=list(case['events']))
+    try:
+        for _ in range(rounds):
+            cands = []
+            n = len(cur['events'])
+            for i in range(n):
+                ev = cur['events'][:i] + cur['events'][i + 1:]
+                # keep scan blocks well formed
+                depth = 0
+                ok = True
+                for e in ev:
+                    if e[0] == 'scan_begin':
+                        ok = ok and depth == 0
+                        depth += 1
+                    elif e[0] == 'scan_end':
+                        depth -= 1
+                        ok = ok and depth == 0
+                    elif e[0] == 'scan_step':
+                        ok = ok and depth == 1
+                if ok and depth == 0:
+                    cands.append(dict(cfg=cur['cfg'], events=ev))
+            if not cands:
+                break
+            outs = run_impl(cands, timeout=300)
+            nxt = next((c for c, o in zip(cands, outs) if len(o['obs']) == len(c['events']) and fires(c, o['obs'])), None)
+            if nxt is None:
+                break
+            cur = nxt
+    except Exception:      # minimisation is best effort
+        pass
+    return cur if len(cur['events']) < len(case['events']) else None
 
 
 def pool_replay(path):
